@@ -239,10 +239,10 @@ def _case(draw, tier):
         "noise": noise,
         "login": draw(st.booleans()),
         "password": draw(st.sampled_from([None, "pw"])),
-        "expected": draw(st.sampled_from([None, "dev", "dev"])),
+        "expected": draw(st.sampled_from([None, "dev", "dev", "patio", "Dev", "de"])),
         "major": draw(st.sampled_from(MAJORS + [1, 2, 3])),
         "minor": draw(st.sampled_from([0, 10, 255])),
-        "api_name": draw(st.sampled_from(API_NAMES + ["dév", "dev "])),
+        "api_name": draw(st.sampled_from(API_NAMES + ["dév", "dev ", "patio", "pati", "dev-2", "de"])),
         "invalid_password": draw(st.integers(0, 3)) == 0,
         "order": draw(st.sampled_from(ORDERS + ["hc", "hc", "hc"])),
     }
@@ -269,6 +269,21 @@ def strategy(tier):
 
 
 def enumerated(tier):
+    # expected names of every shape (ending in letters of ".local", with dots and hyphens): equal -> accepted, one
+    # character less / a suffix more -> refused
+    for exp in ("patio", "hall", "studio", "garage-local", "dev.local", "coca-cola", "plug"):
+        for an in (exp, exp[:-1], exp.rstrip(".local"), exp + "-2", exp + "x"):
+            if not an:
+                continue
+            for noise in (False, True):
+                for login in (False, True):
+                    for via in (0, 1):
+                        c = {"noise": noise, "login": login, "password": None, "expected": exp, "major": 1, "minor": 10, "api_name": an, "invalid_password": False, "order": "hc"}
+                        if noise:
+                            c["noise_name"] = an if via else None
+                        if via:
+                            c.update({"exp_via": 1, "ctor_expected": None})
+                        yield c
     minors = [10] if tier == "quick" else [0, 10, 255]
     pws = [None] if tier == "quick" else [None, "pw"]
     for noise in (False, True):
